@@ -108,6 +108,7 @@ impl Tape {
         self.draw(den) >= den - num
     }
 
+    #[allow(dead_code)]
     pub fn pick<'a, T>(&mut self, v: &'a [T]) -> &'a T {
         &v[self.below(v.len())]
     }
